@@ -39,6 +39,8 @@ def oracle(cells):
     bad = []
     for o, r in cells.items():
         t = o.split(); mode, meth, arg = t[1], t[6], int(t[7])
+        if r == 'stuck':
+            bad.append((o, r, 'the cell never returned (a call or the clean-up of the bystander connection spins for ever)')); continue
         if r.startswith('setup-failed'):
             bad.append((o, r, 'harness could not reach the state')); continue
         r0 = r.split(' B=')[0]
